@@ -158,7 +158,7 @@ func TestC20(t *testing.T) {
 	pool := keys.Pool(rng, 3)
 	n0 := r.N(300, 5000)
 	nh := r.N(240, 3000)
-	nw := r.N(220, 3000)
+	nw := r.N(160, 3000)
 	n := n0 + nh + nw
 	progs := make([][]c20op, n)
 	hrng := r.Rand("c20-history")
